@@ -152,6 +152,45 @@ def check_dated_and_null(res, name, src):
             res.violation('h12:sum-null-group:' + q[:60], 'the sum over a group without non-NULL values is the empty inventory (the neutral element), never NULL', {'ledger': name, 'query': q}, bad[:2], 'empty inventory')
 
 
+def check_balance_under_null_arguments(res, name, src):
+    """the running balance advances with every selected posting, also when the only reference to it is an argument of a function
+    whose other argument is NULL on that row (the function yields NULL there, the posting still counts)"""
+    entries, _, options = ledger.load(src)
+    conn = ledger.connect(src)
+    posts = [(e, p) for e in entries if isinstance(e, data.Transaction) for p in e.postings]
+    res.case((name, 'balance-under-null-argument'))
+    rows = conn.execute('SELECT cost_currency, only(cost_currency, balance), currency FROM #postings').fetchall()
+    run, want = inventory.Inventory(), []
+    for e, p in posts:
+        run.add_position(p)
+        cc = p.cost.currency if p.cost else None
+        want.append((cc, run.get_currency_units(cc) if cc is not None else None, p.units.currency))
+    if [tuple(r) for r in rows] != want:
+        k = next((i for i, (a, b) in enumerate(zip(rows, want)) if tuple(a) != b), None)
+        res.violation('h12:balance-under-null-argument', 'the running balance is the prefix sum of the selected postings whatever expression consults it', {'ledger': name, 'row': k},
+                      tuple(rows[k]) if k is not None else len(rows), want[k] if k is not None else len(want))
+
+
+def check_target_currency_at_cost(res):
+    """conversion reduces lots to plain units also when they are already in the target currency: convert commutes with sum"""
+    import beanquery
+    from beancount.core import amount as _amount
+    entries, errors, options = ledger.load(ledger.LEDGER_B)
+    D_ = __import__('decimal').Decimal
+    legs = [data.Posting('Assets:Cash', _amount.Amount(D_('100'), 'USD'), position.Cost(D_('1.30'), 'CAD', datetime.date(2021, 2, 1), None), None, None, None),
+            data.Posting('Assets:Cash', _amount.Amount(D_('50'), 'USD'), position.Cost(D_('1.25'), 'CAD', datetime.date(2021, 2, 2), None), None, None, None),
+            data.Posting('Equity:Open', _amount.Amount(D_('-192.50'), 'CAD'), None, None, None, None)]
+    txn = data.Transaction({'filename': '<synthetic>', 'lineno': 2}, datetime.date(2021, 2, 2), '*', None, 'foreign cash at cost', frozenset(), frozenset(), legs)
+    conn = beanquery.connect('beancount:', entries=data.sorted(list(entries) + [txn]), errors=[], options=options)
+    for where in ("narration = 'foreign cash at cost' AND currency = 'USD'", "account = 'Assets:Cash'"):
+        res.case(('synthetic', 'convert-target-currency-at-cost', where))
+        a = conn.execute(f"SELECT convert(sum(position), 'USD') FROM #postings WHERE {where}").fetchall()
+        b = conn.execute(f"SELECT sum(convert(position, 'USD')) FROM #postings WHERE {where}").fetchall()
+        c = conn.execute(f"SELECT last(convert(balance, 'USD')) FROM #postings WHERE {where}").fetchall()
+        if a != b or a != c:
+            res.violation('h12:synthetic:convert-at-cost', 'convert(sum(x), c) equals sum(convert(x, c)) and convert of the final balance, also for lots of c held at cost', {'where': where}, (a, c), b)
+
+
 def check_synthetic(res):
     """recurring transactions built programmatically share their postings (entry._replace(date=...)); equal postings that follow
     each other in a selection are still separate postings: the running balance is the prefix sum, its last value the sum"""
@@ -216,6 +255,9 @@ def run(tier, seed):
     check_dated_and_null(res, 'A', ledger.LEDGER_A)
     check_dated_and_null(res, 'B', ledger.LEDGER_B)
     check_synthetic(res)
+    check_balance_under_null_arguments(res, 'A', ledger.LEDGER_A)
+    check_balance_under_null_arguments(res, 'B', ledger.LEDGER_B)
+    check_target_currency_at_cost(res)
     return res.asdict()
 
 
